@@ -74,3 +74,14 @@ Definition back_seq_bits := 8.
 Definition back_seq_signed := true.
 Definition mp11_seq_bits := 16.
 Definition mp11_seq_signed := false.
+
+(* whole-machine probe: a submachine is entered and its initial state's entry behaviour throws; true = the
+   submachine's processing marker is cleared (the next event given to it is dispatched, not stored) *)
+Definition back_entry_throw_resets := true.
+Definition back11_entry_throw_resets := true.
+Definition mp11_entry_throw_resets := true.
+(* whole-machine probe: an initial state's entry behaviour calls fsm.process_event during start(); true = the event is
+   stored and dispatched after the entry behaviours, false = it is dispatched re-entrantly inside the entry behaviour *)
+Definition back_start_queues := true.
+Definition back11_start_queues := true.
+Definition mp11_start_queues := true.
